@@ -80,6 +80,17 @@ impl HttpTransport for HttpClient {
         let url = self.get_url(path)?;
         self.fail_if_not_authenticated(path).await?;
         let token = self.access_token.read().await;
+        #[cfg(feature = "iggy_verif")]
+        if crate::verif::is_installed() {
+            let request = self.client.get(url.clone()).bearer_auth(token.deref())
+                .build()
+                .map_err(|_| IggyError::InvalidHttpRequest)?;
+            drop(token);
+            let response = crate::verif::http_call(request)
+                .await
+                .map_err(|_| IggyError::InvalidHttpRequest)?;
+            return Self::handle_response(response).await;
+        }
         let response = self
             .client
             .get(url)
@@ -99,6 +110,17 @@ impl HttpTransport for HttpClient {
         let url = self.get_url(path)?;
         self.fail_if_not_authenticated(path).await?;
         let token = self.access_token.read().await;
+        #[cfg(feature = "iggy_verif")]
+        if crate::verif::is_installed() {
+            let request = self.client.get(url.clone()).bearer_auth(token.deref()).query(query)
+                .build()
+                .map_err(|_| IggyError::InvalidHttpRequest)?;
+            drop(token);
+            let response = crate::verif::http_call(request)
+                .await
+                .map_err(|_| IggyError::InvalidHttpRequest)?;
+            return Self::handle_response(response).await;
+        }
         let response = self
             .client
             .get(url)
@@ -119,6 +141,17 @@ impl HttpTransport for HttpClient {
         let url = self.get_url(path)?;
         self.fail_if_not_authenticated(path).await?;
         let token = self.access_token.read().await;
+        #[cfg(feature = "iggy_verif")]
+        if crate::verif::is_installed() {
+            let request = self.client.post(url.clone()).bearer_auth(token.deref()).json(payload)
+                .build()
+                .map_err(|_| IggyError::InvalidHttpRequest)?;
+            drop(token);
+            let response = crate::verif::http_call(request)
+                .await
+                .map_err(|_| IggyError::InvalidHttpRequest)?;
+            return Self::handle_response(response).await;
+        }
         let response = self
             .client
             .post(url)
@@ -139,6 +172,17 @@ impl HttpTransport for HttpClient {
         let url = self.get_url(path)?;
         self.fail_if_not_authenticated(path).await?;
         let token = self.access_token.read().await;
+        #[cfg(feature = "iggy_verif")]
+        if crate::verif::is_installed() {
+            let request = self.client.put(url.clone()).bearer_auth(token.deref()).json(payload)
+                .build()
+                .map_err(|_| IggyError::InvalidHttpRequest)?;
+            drop(token);
+            let response = crate::verif::http_call(request)
+                .await
+                .map_err(|_| IggyError::InvalidHttpRequest)?;
+            return Self::handle_response(response).await;
+        }
         let response = self
             .client
             .put(url)
@@ -155,6 +199,17 @@ impl HttpTransport for HttpClient {
         let url = self.get_url(path)?;
         self.fail_if_not_authenticated(path).await?;
         let token = self.access_token.read().await;
+        #[cfg(feature = "iggy_verif")]
+        if crate::verif::is_installed() {
+            let request = self.client.delete(url.clone()).bearer_auth(token.deref())
+                .build()
+                .map_err(|_| IggyError::InvalidHttpRequest)?;
+            drop(token);
+            let response = crate::verif::http_call(request)
+                .await
+                .map_err(|_| IggyError::InvalidHttpRequest)?;
+            return Self::handle_response(response).await;
+        }
         let response = self
             .client
             .delete(url)
@@ -174,6 +229,17 @@ impl HttpTransport for HttpClient {
         let url = self.get_url(path)?;
         self.fail_if_not_authenticated(path).await?;
         let token = self.access_token.read().await;
+        #[cfg(feature = "iggy_verif")]
+        if crate::verif::is_installed() {
+            let request = self.client.delete(url.clone()).bearer_auth(token.deref()).query(query)
+                .build()
+                .map_err(|_| IggyError::InvalidHttpRequest)?;
+            drop(token);
+            let response = crate::verif::http_call(request)
+                .await
+                .map_err(|_| IggyError::InvalidHttpRequest)?;
+            return Self::handle_response(response).await;
+        }
         let response = self
             .client
             .delete(url)
